@@ -99,15 +99,18 @@ func (f *FeedbackAdapter) unpackRunLengthChunk(
 			ssrc:           0,
 			sequenceNumber: i,
 		}
-		if ack, ok := f.history.get(key); ok {
-			if chunk.PacketStatusSymbol != rtcp.TypeTCCPacketNotReceived {
-				if len(deltas)-1 < deltaIndex {
-					return deltaIndex, refTime, result, errInvalidFeedback
-				}
-				refTime = refTime.Add(time.Duration(deltas[deltaIndex].Delta) * time.Microsecond)
-				ack.Arrival = refTime
-				deltaIndex++
+		// Every received packet has a delta, whether or not the packet is
+		// still in the history: the deltas must stay aligned with the symbols.
+		ack, ok := f.history.get(key)
+		if chunk.PacketStatusSymbol != rtcp.TypeTCCPacketNotReceived {
+			if len(deltas)-1 < deltaIndex {
+				return deltaIndex, refTime, result, errInvalidFeedback
 			}
+			refTime = refTime.Add(time.Duration(deltas[deltaIndex].Delta) * time.Microsecond)
+			ack.Arrival = refTime
+			deltaIndex++
+		}
+		if ok {
 			result[resultIndex] = ack
 		}
 		resultIndex++
@@ -127,15 +130,18 @@ func (f *FeedbackAdapter) unpackStatusVectorChunk(
 			ssrc:           0,
 			sequenceNumber: start + uint16(i), //nolint:gosec // G115
 		}
-		if ack, ok := f.history.get(key); ok {
-			if symbol != rtcp.TypeTCCPacketNotReceived {
-				if len(deltas)-1 < deltaIndex {
-					return deltaIndex, refTime, result, errInvalidFeedback
-				}
-				refTime = refTime.Add(time.Duration(deltas[deltaIndex].Delta) * time.Microsecond)
-				ack.Arrival = refTime
-				deltaIndex++
+		// Every received packet has a delta, whether or not the packet is
+		// still in the history: the deltas must stay aligned with the symbols.
+		ack, ok := f.history.get(key)
+		if symbol != rtcp.TypeTCCPacketNotReceived {
+			if len(deltas)-1 < deltaIndex {
+				return deltaIndex, refTime, result, errInvalidFeedback
 			}
+			refTime = refTime.Add(time.Duration(deltas[deltaIndex].Delta) * time.Microsecond)
+			ack.Arrival = refTime
+			deltaIndex++
+		}
+		if ok {
 			result[resultIndex] = ack
 		}
 		resultIndex++
